@@ -13,7 +13,11 @@ import (
 	"github.com/go-i2p/common/lease_set"
 	"github.com/go-i2p/common/lease_set2"
 	"github.com/go-i2p/common/meta_leaseset"
+	"github.com/go-i2p/common/offline_signature"
+	"github.com/go-i2p/common/router_address"
+	"github.com/go-i2p/common/router_identity"
 	"github.com/go-i2p/common/router_info"
+	i2ped "github.com/go-i2p/crypto/ed25519"
 )
 
 // This file is the independent reference ("spec") side of C02: encodings are assembled here from the I2P
@@ -463,5 +467,136 @@ func H_C02_Encode() {
 		nd.Assume(err1 == nil)
 		b1 := l1.Bytes()
 		nd.Assert(len(b1) == 44 && bytes.Equal(b1[:32], gw[:]) && be(b1[32:36]) == uint64(id) && be(b1[36:44]) == uint64(ms), "lease/encoding")
+	}
+}
+
+// H_C02_Encode2: encode direction for the remaining constructors: RouterAddress (cost 1, expiration 8, transport
+// string, options mapping), RouterInfo (identity, published 8, address count 1, addresses, peer size 1 = 0, options,
+// signature), legacy LeaseSet (destination, 256-byte encryption key, signing key, count 1, 44-byte leases, signature),
+// OfflineSignature (expires 4, type 2, key, signature): the bytes are taken apart by reference offsets.
+//
+//verif:props C02
+//verif:witness built
+//verif:solver cvc5
+func H_C02_Encode2() {
+	priv, pub := nd.Ed25519Key()
+	switch nd.IntRange(0, 3) {
+	case 0:
+		cost := nd.Byte()
+		ts := nd.String(nd.IntRange(1, 3))
+		ks, vs := smallPairs()
+		mm := map[string]string{}
+		for i := range ks {
+			mm[ks[i]] = vs[i]
+		}
+		a, err := router_address.NewRouterAddress(cost, nowZero(), ts, mm)
+		nd.Assume(err == nil)
+		nd.Cover("built")
+		out := a.Bytes()
+		ref := refEncodeMapping(ks, vs)
+		want := 1 + 8 + 1 + len(ts) + len(ref)
+		nd.Assert(len(out) == want, "ra/encoded-length")
+		if len(out) != want {
+			return
+		}
+		nd.Assert(out[0] == cost, "ra/encodes-cost-first")
+		nd.Assert(be(out[1:9]) == 0, "ra/encodes-zero-expiration-as-8-zero-bytes")
+		nd.Assert(int(out[9]) == len(ts) && string(out[10:10+len(ts)]) == ts, "ra/encodes-transport-as-length-prefixed-string")
+		nd.Assert(bytes.Equal(out[10+len(ts):], ref), "ra/encodes-options-as-sorted-mapping")
+	case 1:
+		ident, _, err := router_identity.ReadRouterIdentity(identityBytes(4, pub))
+		nd.Assume(err == nil)
+		idb, _ := ident.Bytes()
+		na := nd.IntRange(0, 1)
+		var addrs []*router_address.RouterAddress
+		var ab []byte
+		if na == 1 {
+			a, aerr := router_address.NewRouterAddress(nd.Byte(), nowZero(), nd.String(2), map[string]string{})
+			nd.Assume(aerr == nil)
+			addrs = append(addrs, a)
+			ab = a.Bytes()
+		}
+		ks, vs := smallPairs()
+		mm := map[string]string{}
+		for i := range ks {
+			mm[ks[i]] = vs[i]
+		}
+		ms := nd.Int64()
+		nd.Assume(ms >= 0)
+		sk := i2ped.Ed25519PrivateKey(priv)
+		ri, rerr := router_info.NewRouterInfo(ident, timeUnixMilli(ms), addrs, mm, &sk, 7)
+		nd.Assume(rerr == nil && ri != nil)
+		out, berr := ri.Bytes()
+		nd.Assert(berr == nil, "ri/constructed-serialises")
+		if berr != nil {
+			return
+		}
+		nd.Cover("built")
+		ref := refEncodeMapping(ks, vs)
+		want := 391 + 8 + 1 + len(ab) + 1 + len(ref) + 64
+		nd.Assert(len(out) == want, "ri/encoded-length")
+		if len(out) != want {
+			return
+		}
+		nd.Assert(bytes.Equal(out[:391], idb), "ri/encodes-identity-first")
+		nd.Assert(be(out[391:399]) == uint64(ms), "ri/encodes-published-as-8-byte-milliseconds")
+		nd.Assert(int(out[399]) == na && bytes.Equal(out[400:400+len(ab)], ab), "ri/encodes-address-count-and-addresses")
+		p := 400 + len(ab)
+		nd.Assert(out[p] == 0, "ri/encodes-peer-size-zero")
+		nd.Assert(bytes.Equal(out[p+1:p+1+len(ref)], ref), "ri/encodes-options-as-sorted-mapping")
+	case 2:
+		dest, _, err := destination.ReadDestination(identityBytes(0, pub))
+		nd.Assume(err == nil)
+		destBytes, _ := dest.Bytes()
+		encKey, kerr := dest.PublicKey()
+		nd.Assume(kerr == nil)
+		ek := encKey.Bytes()
+		nd.Assume(ek[0] == 0 && ek[255] >= 2)
+		spk, serr := dest.SigningPublicKey()
+		nd.Assume(serr == nil)
+		n := nd.IntRange(0, 2)
+		var leases []lease.Lease
+		var lb []byte
+		for i := 0; i < n; i++ {
+			var l lease.Lease
+			copy(l[:], nd.Bytes(44))
+			leases = append(leases, l)
+			lb = append(lb, l[:]...)
+		}
+		sk := i2ped.Ed25519PrivateKey(priv)
+		ls, lerr := lease_set.NewLeaseSet(dest, encKey, spk, leases, &sk)
+		nd.Assume(lerr == nil && ls != nil)
+		out, berr := ls.Bytes()
+		nd.Assert(berr == nil, "ls/constructed-serialises")
+		if berr != nil {
+			return
+		}
+		nd.Cover("built")
+		want := 391 + 256 + 32 + 1 + 44*n + 64
+		nd.Assert(len(out) == want, "ls/encoded-length")
+		if len(out) != want {
+			return
+		}
+		nd.Assert(bytes.Equal(out[:391], destBytes), "ls/encodes-destination-first")
+		nd.Assert(bytes.Equal(out[391:647], ek), "ls/encodes-256-byte-encryption-key")
+		nd.Assert(bytes.Equal(out[647:679], spk.Bytes()), "ls/encodes-signing-key-of-the-destination-type-length")
+		nd.Assert(int(out[679]) == n && bytes.Equal(out[680:680+44*n], lb), "ls/encodes-count-and-44-byte-leases")
+	case 3:
+		tts := []int{7, 1, 0}
+		tt := tts[nd.IntRange(0, len(tts)-1)]
+		tp, _ := sigLens(tt)
+		exp := nd.Uint32()
+		nd.Assume(exp != 0)
+		tk := nd.Bytes(tp)
+		o, err := offline_signature.CreateOfflineSignature(exp, uint16(tt), tk, ed25519.PrivateKey(priv), 7)
+		nd.Assume(err == nil)
+		nd.Cover("built")
+		out := o.Bytes()
+		nd.Assert(len(out) == 6+tp+64, "offline/encoded-length")
+		if len(out) != 6+tp+64 {
+			return
+		}
+		nd.Assert(be(out[0:4]) == uint64(exp) && be(out[4:6]) == uint64(tt), "offline/encodes-expires-4-then-type-2")
+		nd.Assert(bytes.Equal(out[6:6+tp], tk), "offline/encodes-transient-key")
 	}
 }
